@@ -298,7 +298,7 @@ def fresh_strings(x):
     return x
 
 
-def gen_objlist(r):
+def gen_objlist(r, containers=False):
     kind = r.choice(["plain", "ci", "ci", "ci-nofactory"])
     pool = r.choice(POOLS)
     key = r.choice(["group", "name", "status"])
@@ -312,6 +312,9 @@ def gen_objlist(r):
             d["other"] = r.choice(SCALARS)
         if not (i < lacking):
             d[key] = r.choice(pool)
+            if containers and r.random() < 0.2:
+                # the key is there but holds a list / dict (COLOR 0 0 255 next to COLOR "#ff0000"): never equal to a scalar, never an error
+                d[key] = r.choice([[0, 0, 255], ["road"], {"__type__": "x"}, [], {}])
         if r.random() < 0.3:
             d["classes"] = [mk_dict(r, kind)]
         lst.append(d)
@@ -417,7 +420,7 @@ def run(ctx):
                 res.sample({"fn": "update", "d1": json.loads(json.dumps(t)), "d2": json.loads(json.dumps(p)), "overwrite": ow})
             call(res, fn, "update", (t, p, ow), in_dom)
         elif which == 1:
-            kind, key, pool, lst, lacking = gen_objlist(r)
+            kind, key, pool, lst, lacking = gen_objlist(r, containers=True)
             value = r.choice(pool + SCALARS[:4])
             res.seen("cases", _h("find", lst, key, value))
             res.seen("structural-case", f"find {kind} lacking={min(lacking, 3)} valuetype={type(value).__name__}")
@@ -428,7 +431,7 @@ def run(ctx):
                 res.sample({"fn": "find", "lst": json.loads(json.dumps(lst)), "key": key, "value": value})
             call(res, fn, "find", (lst, r.choice([key, key.upper()]), value))
         elif which == 2:
-            kind, key, pool, lst, lacking = gen_objlist(r)
+            kind, key, pool, lst, lacking = gen_objlist(r, containers=True)
             if r.random() < 0.4:
                 value = r.sample(pool, r.randint(1, min(3, len(pool))))
                 if r.random() < 0.3:
